@@ -72,8 +72,16 @@ def example_cases():
                 yield dict(kind="example", file=fname, name=name, game=g, prune=prune)
 
 
+def tiny_cases():
+    for g in games.tiny_reach_games():
+        for prune in (True, False):
+            yield dict(kind="game", game=g, prune=prune)
+
+
 def phases(tier):
     return [
+        Phase("tiny-positive-reach-values", enum=tiny_cases,
+              note="states worth 1e-9..1e-6: positive, hence not dead, must survive conditioning"),
         Phase("repository-examples", enum=example_cases, note="inputs/*.py example games, consistency + exact if stopping"),
         Phase("stopping-games", strategy=lambda: stopping_cases(9 if tier == "quick" else 12), examples=(1500, 60000)),
         Phase("boards-consistency", strategy=lambda: board_cases(3, 3) if tier == "quick" else board_cases(4, 4),
